@@ -499,6 +499,8 @@ def replay_metrics(inputs):
     lat = random_lattice(rng)
     T, N = int(rng.integers(12, 40)), int(rng.integers(2, 5))
     steps = rng.normal(scale=0.03, size=(T, N, 3))
+    if inputs.get('weak'):
+        steps *= 1e-4  # very weak vibrations: the spectral power is tiny in absolute terms, ratios of it must still be scale-free
     steps[0] = 0
     if inputs.get('frozen', seed % 3 == 0) and N >= 2:
         steps[:, 1 + seed % (N - 1)] = 0  # an atom that never moves, after at least one that does
@@ -506,7 +508,7 @@ def replay_metrics(inputs):
     coords = base + np.cumsum(steps, axis=0)
     dt = 2e-15
     temp = 650.0
-    sp = [Element('Li')] * (N - 1) + [Element('Na')]
+    sp = [Element('Na') if a_ % 2 else Element('Li') for a_ in range(N)]  # interleaved species: masses follow the atom order, not a grouped order
 
     def mk(matrix, time_step, x=coords):
         return Trajectory(species=sp, coords=x, lattice=matrix, time_step=time_step, metadata={'temperature': temp})
@@ -569,7 +571,9 @@ def bounded_metrics(tier, seed):
                'seeded random vs independent numpy formulas; every case non-trivial')
     rng = np.random.default_rng(seed + 1414)
     for c in range(n):
-        inp = {'seed': int(rng.integers(1, 10 ** 6)), 'k': float(rng.choice([0.5, 1.7, 3.0])), 's': float(rng.choice([0.5, 3.0]))}
+        inp = {'seed': int(rng.integers(1, 10 ** 6)), 'k': float(rng.choice([0.5, 1.7, 3.0])), 's': float(rng.choice([0.5, 3.0])), 'weak': c % 4 == 2}
+        if inp['weak']:
+            inp['frozen'] = False
         r = st.guard(replay_metrics, inp)
         if r is None:
             continue
